@@ -27,9 +27,20 @@ PacketsDef ==
            Req(35, 17, 0, 7, << 9 >>), Req(35, 17, 0, 0, << >>), Req(35, 17, 0, 200, << 1, 2 >>),
            Corrupt(Req(35, 17, 9, 2, << >>), 12, 128) }
     \cup { Rsp(35, 17, 1, << 0, 0, 9, 0 >>), Rsp(35, 17, 2, << 0, 9, 0, 0 >>), Rsp(35, 17, 3, << 2 >>),
-           Rsp(35, 17, 3, << 0 >> \o Fill(16, 170)) }
+           Rsp(35, 17, 3, << 0 >> \o Fill(16, 170)),
+           (* vendor support / message type / version answers from a peer, selectors around our own range *)
+           Rsp(35, 17, 6, << 0, 1, 0, 18, 52, 0, 171 >>), Rsp(35, 17, 6, << 0, 2, 0, 18, 52, 0, 171 >>),
+           Rsp(35, 17, 6, << 0, 255, 1, 17, 34, 51, 68, 85, 102 >>), Rsp(35, 17, 5, << 0, 1, 126 >>),
+           Rsp(35, 17, 4, << 0, 1, 241, 243, 241, 0 >>) }
     \cup { Frame(35, 17, MT_PCI, << 18, 52, 1 >>), Frame(35, 17, MT_IANA, << 0, 0, 1, 157 >>),
            Frame(35, 17, MT_SPDM, << 16, 132 >>), Corrupt(Frame(35, 17, MT_SECURED, << 1, 2 >>), 10, 8) }
+
+(* a core alphabet for exhaustive behaviours of length 3 (spec -> impl): order-dependent histories such as   *)
+(* Set A, Set B, Set A; assignment, accessor, assignment; query after query (hidden scratch state)          *)
+PacketsCore ==
+    { Set(0, 1, 0), Set(1, 2, 0), Set(0, 2, 3), Set(3, 2, 0), Corrupt(Set(0, 2, 0), 13, 4),
+      Req(35, 17, 9, 2, << >>), Req(35, 17, 2, 6, << 0 >>), Req(35, 17, 3, 6, << 1 >>),
+      Rsp(35, 17, 1, << 0, 0, 9, 0 >>) }
 
 UuidValsDef == { Fill(16, 165) }
 
